@@ -353,7 +353,8 @@ def valid_tag(tag: bytes) -> bool:
                              for c in tag)
 
 
-def run_inputs(case: dict, trace: bool = False) -> dict:
+def run_inputs(case: dict, trace: bool = False,
+               keep_all: bool = False) -> dict:
     ctx = Ctx(case, trace=trace)
     limit = case['config'].get('bad_command_limit', 5)
     consecutive_bad = 0
@@ -459,8 +460,9 @@ def run_inputs(case: dict, trace: bool = False) -> dict:
                 break
         ctx.finish()
         res = ctx.result()
-        res['violations'] = [v for v in res['violations']
-                             if v['property'] == 'C06']
+        if not keep_all:
+            res['violations'] = [v for v in res['violations']
+                                 if v['property'] == 'C06']
         res['nontrivial'] = inputs >= 1
         res['stats']['inputs'] = inputs
         if trace:
